@@ -282,6 +282,29 @@ func partCheck(c *core.Ctx, n, size int) bool {
 	if !eqSlice(in, snap) {
 		return fail("input-modified", "the input slice was modified")
 	}
+	// results kept across later calls on other data must not change
+	if n > 0 && n <= 300 {
+		kc, kw, kp := slices.Chunk(in, size), slices.Windowed(in, size), slices.Pairs(in)
+		lc, lw := pieceLens(kc), pieceLens(kw)
+		var firstC, firstW []int
+		if len(kc) > 0 {
+			firstC = append([]int(nil), kc[0]...)
+		}
+		if len(kw) > 0 {
+			firstW = append([]int(nil), kw[0]...)
+		}
+		sp := append([][2]int(nil), kp...)
+		otherIn := make([]int, n+3)
+		for i := range otherIn {
+			otherIn[i] = -5000 - i
+		}
+		_ = slices.Chunk(otherIn, size)
+		_ = slices.Windowed(otherIn, size)
+		_ = slices.Pairs(otherIn)
+		if !eqSlice(pieceLens(kc), lc) || !eqSlice(pieceLens(kw), lw) || (len(kc) > 0 && !eqSlice(kc[0], firstC)) || (len(kw) > 0 && !eqSlice(kw[0], firstW)) || !eqSlice(kp, sp) {
+			return fail("result-changed-by-later-call", "what Chunk/Windowed/Pairs returned changed when they were called again on another slice")
+		}
+	}
 	return true
 }
 
